@@ -329,10 +329,13 @@ T* copy_memory_or_deny_access(rlbox_sandbox<T_Sbx>& sandbox,
     return nullptr;
   }
 
+  RLBOX_VERIF_INTERLEAVE("cmda.fetch");
   tainted<T*, T_Sbx> src_tainted = src;
   char* src_raw = src_tainted.copy_and_verify_buffer_address(
     [](uintptr_t val) { return reinterpret_cast<char*>(val); }, num);
+  RLBOX_VERIF_INTERLEAVE("cmda.copy");
   std::memcpy(copy, src_raw, source_size);
+  RLBOX_VERIF_INTERLEAVE("cmda.done");
   if (free_source_on_copy) {
     sandbox.free_in_sandbox(src);
   }
